@@ -195,6 +195,8 @@ def random_value(rng: typing.Any) -> typing.Any:
     return s if rng.random() < 0.6 else s.encode("utf-8")
 
 
+REAL_FILENAMES = ["site.tar.gz", "dump.gz", "access.txt.gz", "report.csv.bz2", "x.bz2", "data:text/html,hi", "README", "Makefile", "a.tgz", "photo.JPG", "photo.jpg", "archive.tar.xz", "notes.txt.xz",
+                  "page.html", "page.HTML.gz", "f.svgz", "a.b.c", ".hidden", "noext.", "weird.unknownext", "http://h.test/p.png?x=1.txt", "dir/inner.txt", "t.tar", "script.py.Z"]
 CTYPES = ["text/plain", "application/octet-stream", "image/png; charset=x"]
 
 
@@ -202,7 +204,7 @@ def random_field(rng: typing.Any, names: list[str]) -> dict[str, typing.Any]:
     form = rng.choice(["plain", "plain", "tuple2", "tuple3", "rf"])
     f: dict[str, typing.Any] = {"form": form, "name": rng.choice(names) if rng.random() < 0.7 else "".join(rng.choice(SYMS) for _ in range(rng.randint(1, 8))), "data": rng.choice(VALUES) if rng.random() < 0.5 else random_value(rng)}
     if form != "plain":
-        f["filename"] = rng.choice(names) if rng.random() < 0.7 else "".join(rng.choice(SYMS + [".txt", ".png", "f"]) for _ in range(rng.randint(0, 8)))
+        f["filename"] = rng.choice(REAL_FILENAMES) if rng.random() < 0.1 else rng.choice(names) if rng.random() < 0.7 else "".join(rng.choice(SYMS + [".txt", ".png", "f"]) for _ in range(rng.randint(0, 8)))
     if form == "tuple3":
         f["ctype"] = rng.choice(CTYPES)
     if form == "rf":
@@ -313,6 +315,14 @@ def run_shard(ctx: Ctx, rec: Recorder) -> None:
         if idx % 389 == 0:
             check(rec, fields, "list", "B0undary", "wire")
             rec.mon("wire_roundtrip")
+    # (i-b) realistic file names whose guessed type depends on more than the last extension (compression suffixes, suffix
+    # aliases, URL-looking names, case), in every order of two: the type a part carries is the one its own name specifies
+    if ctx.shard == 0:
+        for a, b in itertools.permutations(REAL_FILENAMES, 2):
+            fields = [{"form": "tuple2", "name": "f1", "filename": a, "data": b"one"}, {"form": "tuple2", "name": "f2", "filename": b, "data": b"two"}, {"form": "rf", "name": "f3", "filename": a, "data": b"three", "ctype": None}]
+            rec.case(["real-filenames", a, b])
+            rec.mon("filename_pair")
+            check(rec, fields, "list", "B0undary", "encode")
     rec.exhaustive_parts.append(f"every name/filename of length<={ctx.pick(3, 4)} over the {len(SYMS)}-symbol hostile alphabet ({len(names)} strings), in 4 input forms + a 3-field sandwich")
     # (ii) random field lists up to 4 fields, all containers, boundaries and values
     short = hostile_names(2)
